@@ -27,7 +27,7 @@ func c44Jobs(thorough bool, dir string, noPoll map[string]bool) []Job {
 	unb := []int{0, 1, 2, -1}
 	js := []Job{
 		// largest first (better packing on the worker pool)
-		{Harness: "c44", Name: "H2/changes=2,clients=2", P: Params{Changes: 2, Clients: 2}, Bounds: []int{0, 1}, Shards: 6},
+		{Harness: "c44", Name: "H2/changes=2,clients=2", P: Params{Changes: 2, Clients: 2}, Bounds: []int{0}},
 		{Harness: "c44", Name: "H1/changes=3,clients=1", P: Params{Changes: 3, Clients: 1}, Bounds: b012},
 		{Harness: "c44", Name: "H3/changes=2,clients=1,peer-gone+write-error", P: Params{Changes: 2, Clients: 1, Gone: true, WriteFail: true}, Bounds: b012, EnvBudget: 1},
 		{Harness: "c44", Name: "H2/changes=1,clients=2", P: Params{Changes: 1, Clients: 2}, Bounds: []int{0, 1}},
@@ -58,7 +58,7 @@ func c44Jobs(thorough bool, dir string, noPoll map[string]bool) []Job {
 func c45Jobs(thorough bool, dir string, noPoll map[string]bool) []Job {
 	unb := []int{0, 1, 2, -1}
 	js := []Job{
-		{Harness: "c45", Name: "S2/close∥handleWatch×2∥broadcast", P: Params{Clients: 2, Broadcast: true}, Bounds: []int{0, 1}, Shards: 10},
+		{Harness: "c45", Name: "S2/close∥handleWatch×2∥broadcast", P: Params{Clients: 2, Broadcast: true}, Bounds: []int{0}},
 		{Harness: "c45", Name: "S2'/close∥handleWatch×2", P: Params{Clients: 2}, Bounds: []int{0, 1}},
 		{Harness: "c45", Name: "S3/close;close∥handleWatch∥broadcast", P: Params{Clients: 1, Broadcast: true, DoubleClose: true}, Bounds: unb},
 		{Harness: "c45", Name: "S1/close∥handleWatch,accept-or-ping-may-fail,peer-may-leave", P: Params{Clients: 1, AcceptFail: true, PingFail: true, Gone: true}, Bounds: unb, EnvBudget: 1},
